@@ -23,7 +23,11 @@ for p in props:
     if ck and pid in expl:
         ck = dict(ck)
         rl = rules_of(pid)
-        ck["text"] = expl[pid]["explanation"] + (" Rules as registered by the checker: " + rl + "." if rl else "")
+        ex = expl[pid]["explanation"]
+        ck["text"] = ex + (" Rules as registered by the checker: " + rl + "." if rl else "")
+        # the note is derived from the checker's own statement of what it does not decide
+        tail = ex.split("NOT decided:", 1)[1].strip() if "NOT decided:" in ex else ""
+        ck["note"] = ("Not decided: " + tail + " " if tail else "") + "Trusted: go/types, go/cfg and the frozen tables listed in DESIGN.md 9.4 (one symbol, one reason each). Restructurings the rules do not recognise are reported as undecided (VIOLATION channel), see DESIGN.md 9.9."
     if ck:
         checks.append({
             "property_id": pid,
